@@ -181,8 +181,28 @@ def scope(ctx):
     return max(RMAX, 4 * (k + 1) + 1), max(LMAX, k + 1)
 
 
+def thresholds(ctx):
+    """integer literals above 8 (up to 2^20) in the bodies of the string / word requests: byte positions around them are evaluated too"""
+    if ctx is None:
+        return []
+    from ..tree import big_literals
+    out = set()
+    for name in ("string", "words", "word"):
+        try:
+            out |= big_literals(ctx.rspirv.fn(DEC, name, "Decoder")["body"])
+        except Anchor:
+            pass
+    return sorted(out)[:3]
+
+
 def string_cases(ctx=None):
     rmax, lmax = scope(ctx)
+    for t_ in thresholds(ctx):
+        # the code mentions the number t_: strings whose terminator lies just below, at and above it (and a word further)
+        for p in sorted({t_ - 1, t_, t_ + 1, t_ + 4, (t_ // 4) * 4 + 3}):
+            if p >= 0:
+                yield p + 5, None, p, True
+                yield p + 5, p // 4 + 2, p, True
     for r in range(0, rmax + 1):
         for limit in [None] + list(range(0, lmax + 1)) + HUGE:
             for p in [None] + list(range(r)):
@@ -192,6 +212,30 @@ def string_cases(ctx=None):
                     yield r, limit, p, "unpadded"      # non-zero bytes after the terminator: the string still ends at the first NUL
                 if p is not None and p >= 2 and p % 4 in (0, 1):
                     yield r, limit, p, "multibyte"     # the first two bytes are one character: characters != bytes
+
+
+def string_problem(ctx):
+    """None if Decoder::string agrees with the reference in every evaluated state, else the first difference"""
+    def build():
+        try:
+            for r, lim, pz, u8 in string_cases(ctx):
+                out = evaluate(ctx, "string", r, lim, pz, u8 is not False, padded=(u8 != "unpadded"), multibyte=(u8 == "multibyte"))
+                if "panic" in out:
+                    return "string(bytes left=%d, limit=%s, first NUL at %s) panics: %s" % (r, lim, pz, out["panic"])
+                ref = string_reference(r, lim, pz, u8 is not False)
+                v = out["result"]
+                if isinstance(v, tuple) and v[0] == "err" and isinstance(v[1], tuple) and v[1][0] == "enum" and v[1][2]:
+                    got = ("err", v[1][1].split("::")[-1], v[1][2][0], out["offset"], out["limit"])
+                elif isinstance(v, tuple) and v[0] == "ok" and isinstance(v[1], tuple) and v[1][0] == "utf8":
+                    got = ("ok", v[1][1], None, out["offset"], out["limit"])
+                else:
+                    got = ("?", v)
+                if got != ref:
+                    return "string(bytes left=%d, limit=%s, first NUL at %s) yields %s" % (r, lim, pz, describe(out))
+        except Anchor as ex:
+            return "not in an analysable shape: %s" % ex
+        return None
+    return ctx.memo("stringx_string_problem", build)
 
 
 def describe(out):
@@ -208,6 +252,8 @@ def describe(out):
 def short(v):
     if isinstance(v, tuple) and v and v[0] in ("utf8", "le"):
         idx = [b[1] if isinstance(b, tuple) else "NUL" for b in v[1]]
+        if len(idx) > 8:
+            return "%s(%d bytes %s..%s)" % (v[0], len(idx), idx[0], idx[-1])
         return "%s(bytes %s)" % (v[0], idx)
     if isinstance(v, tuple) and v and v[0] == "list":
         return "[%s]" % ", ".join(short(x) for x in v[1])
